@@ -239,10 +239,11 @@ def findInc (okc : Cat → Bool) (a b : Bytes) : List IncInfo → Nat → Option
 
 def plainNode (c : Cat) : RNode := ⟨c, false, none⟩
 
-/-- The `default:` branch of ResolveType plus the base-type case, for a node named `n`. -/
-def resolveName (env : Env) (slot : Slot) (off : Nat) (n : Bytes) : Res (Out (List RNode)) :=
+/-- The `default:` branch of ResolveType plus the base-type case, for a node named `n` at
+ordinal `off` of `slot`. -/
+def resolveName (env : Env) (slot : Slot) (off : Nat) (n : Bytes) : Res (Out RNode) :=
   match baseCat n with
-  | some c => .ok ⟨[plainNode c], [], []⟩
+  | some c => .ok ⟨plainNode c, [], []⟩
   | none =>
     if isContainerName n then .error .goPanic   -- a container node without ValueType: nil dereference
     else
@@ -251,21 +252,31 @@ def resolveName (env : Env) (slot : Slot) (off : Nat) (n : Bytes) : Res (Out (Li
         match env.n2c a with
         | some c =>
           if c.isTypeLike then
-            if c = .typedef then .ok ⟨[⟨c, true, none⟩], [⟨(slot, off), .cur, a⟩], []⟩
-            else .ok ⟨[⟨c, false, none⟩], [], []⟩
+            if c = .typedef then .ok ⟨⟨c, true, none⟩, [⟨(slot, off), .cur, a⟩], []⟩
+            else .ok ⟨⟨c, false, none⟩, [], []⟩
           else .error .badCat
         | none => .error .undefType
       | [a, b] =>
         match findInc Cat.isTypeLike a b env.incs 0 with
         | some (k, c) =>
-          if c = .typedef then .ok ⟨[⟨c, true, some ⟨k, b⟩⟩], [⟨(slot, off), .inc k, b⟩], [k]⟩
-          else .ok ⟨[⟨c, false, some ⟨k, b⟩⟩], [], [k]⟩
+          if c = .typedef then .ok ⟨⟨c, true, some ⟨k, b⟩⟩, [⟨(slot, off), .inc k, b⟩], [k]⟩
+          else .ok ⟨⟨c, false, some ⟨k, b⟩⟩, [], [k]⟩
         | none => .error .undefType
       | _ => .error .invalidTypeName
 
+/-- What ResolveType does at one node (the recursion into element types is `resolveType`). -/
+def nodeOut (env : Env) (slot : Slot) (off : Nat) : TypeExpr → Res (Out RNode)
+  | .name n => resolveName env slot off n
+  | .list _ => .ok ⟨plainNode .list, [], []⟩
+  | .set _ => .ok ⟨plainNode .set, [], []⟩
+  | .map _ _ => .ok ⟨plainNode .map, [], []⟩
+
 /-- resolver.ResolveType; `off` is the pre-order ordinal of the node being resolved. -/
 def resolveType (env : Env) (slot : Slot) : Nat → TypeExpr → Res (Out (List RNode))
-  | off, .name n => resolveName env slot off n
+  | off, .name n =>
+    match resolveName env slot off n with
+    | .error e => .error e
+    | .ok o => .ok ⟨[o.val], o.work, o.used⟩
   | off, .list v =>
     match resolveType env slot (off + 1) v with
     | .error e => .error e
